@@ -249,8 +249,9 @@ func (f *Frame) binop(st *State, in ssa.Instruction, op token.Token, a, b *Val, 
 	case token.SUB:
 		return scalar(BVSub(x, y), rt)
 	case token.MUL:
-		return scalar(BVMul(x, y), rt)
+		return scalar(BVMul(c.known(x), c.known(y)), rt)
 	case token.QUO:
+		y = c.known(y)
 		f.panicSite(st, in, "divzero", Eq(y, BVLitI(0, w)), "integer divide by zero")
 		if signed {
 			return scalar(BVSDiv(x, y), rt)
